@@ -189,6 +189,34 @@ Assign(n, fl, u) ==
           /\ empty' = empty \ {nb}
     /\ UNCHANGED <<stack, nfile>>
 
+\* n, m = tostring(u) : two targets, one (call) expression; each target is a write to the visible local of that
+\* name, otherwise a definition of the global
+Assign2(n, m, u) ==
+    /\ On("assign2") /\ More /\ n # m
+    /\ ("hide" \in Avoid) => ~(u = n /\ Lookup(stack, n) \in empty)
+    /\ ("gshallow" \in Avoid) => ~((Lookup(stack, n) = 0 /\ Shallower(n)) \/ (Lookup(stack, m) = 0 /\ Shallower(m)))
+    /\ ("selfw" \in Avoid) => ~(\E i \in 1..Len(stack) : "gname" \in DOMAIN stack[i] /\ stack[i].gname \in {n, m})
+    /\ LET nb == Lookup(stack, n)
+           mb == Lookup(stack, m)
+           b  == Lookup(stack, u)
+           gid == IF nb = 0 THEN nid ELSE 0
+           gmid == IF mb = 0 THEN (IF nb = 0 THEN nid + 1 ELSE nid) ELSE 0
+           new == (IF nb = 0 THEN {<<n, gid, nfile, AtTop, Len(stack)>>} ELSE {})
+                  \cup (IF mb = 0 THEN {<<m, gmid, nfile, AtTop, Len(stack)>>} ELSE {})
+       IN /\ prog' = Append(prog, [infn |-> InFunc, vis |-> VisIds, vispend |-> PendIds, top |-> AtTop, ingf |-> InGFunc, k |-> "assign2", n |-> n, nb |-> nb, id |-> gid, m |-> m, mb |-> mb, mid |-> gmid,
+                                   u |-> u, b |-> b,
+                                   \* the call is adopted as the initialiser of a still-empty first target
+                                   alt |-> IF u = n /\ nb # 0 /\ nb \in empty
+                                           THEN [HideAlt(stack, u) EXCEPT !.hide = LookupSkip(stack, n, Hidden(stack) \cup {nb})]
+                                           ELSE HideAlt(stack, u),
+                                   altn |-> IF nb = 0 THEN NoAlt ELSE HideAlt(stack, n),
+                                   altm |-> IF mb = 0 THEN NoAlt ELSE HideAlt(stack, m)])
+          /\ reads' = Read(b)
+          /\ nid' = nid + Cardinality(new)
+          /\ gdefs' = gdefs \cup new
+          /\ empty' = empty \ {nb, mb}
+    /\ UNCHANGED <<stack, nfile>>
+
 Do ==
     /\ On("do") /\ More /\ CanOpen
     /\ prog' = Append(prog, [infn |-> InFunc, vis |-> VisIds, vispend |-> PendIds, top |-> AtTop, ingf |-> InGFunc, k |-> "do"])
@@ -346,6 +374,7 @@ Next ==
     \/ \E u \in UNames : Use(u)
     \/ \E n \in Names : Assign(n, "const", None)
     \/ \E n \in Names, u \in UNames : Assign(n, "bare", u)
+    \/ \E n \in Names, m \in Names, u \in UNames : Assign2(n, m, u)
     \/ Do
     \/ \E u \in UNames : While(u) \/ If(u) \/ ElseIf(u) \/ Until(u)
     \/ Else \/ Repeat
